@@ -69,6 +69,7 @@ def plan(ctx):
         ('shard_random', [('rnd', ctx.pick(1500, 40000), i) for i in range(16)]),
         ('shard_mutations', [('mut', ctx.pick(4, 40), i) for i in range(16)]),
         ('shard_spaced', [('spaced', ctx.pick(400, 10000), i) for i in range(16)]),
+        ('shard_runs', [('runs', i, 8) for i in range(8)]),
     ]
 
 
@@ -85,6 +86,39 @@ def shard_random(ctx, shard):
 def shard_mutations(ctx, shard):
     H.import_repo()
     return S.mutation_shard(ctx, shard, check_string)
+
+
+def shard_runs(ctx, shard):
+    """Argument runs of 0..12 groups followed by blank lines / CR LF and a non-letter: every load-save round must
+    be a fixed point (a reader that loses one blank per round only shows with two blank tokens)."""
+    _, idx, nshard = shard
+    H.import_repo()
+    res = H.Result()
+    seen = set()
+    count = 0
+    heads = ['\\x', '\\begin{e}', '\\item', '\\section', '\\x[o]', '\\noindent', '\\cup']
+    for head in heads:
+        for n in range(0, 13):
+            for sep in ('\n\n', ' \n\n', '\r\n', '\n\n\n', ' \n \n ', '\r\n\n', '  '):
+                for follow in ('{x}', '\\y', '$m$', '', '[z]', '%c\n'):
+                    count += 1
+                    if count % nshard != idx:
+                        continue
+                    s = head + ''.join('{a%d}' % k for k in range(n)) + sep + follow + ('\\end{e}' if head.startswith('\\begin') else '')
+                    try:
+                        judged, nt, labels = check_string(s, 'argument-run')
+                    except H.Violation as v:
+                        if v.kind not in seen:
+                            seen.add(v.kind)
+                            res.violations.append(v.record())
+                        continue
+                    if not judged:
+                        for l in labels:
+                            res.excluded[l] += 1
+                        continue
+                    res.case(s, True, sample=s, classes=['runs:%d-groups' % n])
+    res.exhaustive['heads x 0..12 groups x separators x followers (this run)'] = count
+    return res
 
 
 def shard_spaced(ctx, shard):
